@@ -99,10 +99,7 @@ def run(args):
                         hist["nonascii_terminal_cols"] += 1
                         pre = doc.encode("utf-8")[:offc].decode("utf-8")
                         lastline = pre.rsplit("\n", 1)[-1]
-                        if not lastline.isascii() and ctx.known("C19-terminal-column-counts-bytes"):
-                            n_known_col += 1
-                        else:
-                            failures.append({"request": req, "real": real, "why": f"terminal column should be {ec + 1}"})
+                        failures.append({"request": req, "real": real, "why": f"terminal column should be {ec + 1} (characters before the offset on its line, + 1; line prefix {lastline!r})"})
         # strict monotonicity of positions over boundary offsets
         for d, (doc, bset, n) in cache.items():
             prev = None
